@@ -64,7 +64,8 @@ def gen(seed: int, tier: str) -> dict[str, Any]:
         kind = rng.choice(list(KINDS))
         params = {}
         names = KINDS[kind]
-        for p in rng.sample(names, rng.randint(1, len(names))):
+        # some devices have no group address at all (a legal configuration: nothing is dispatched to them)
+        for p in rng.sample(names, 0 if rng.random() < 0.12 else rng.randint(1, len(names))):
             if rng.random() < 0.3:
                 params[p] = [rng.choice(pool) for _ in range(rng.randint(2, 3))]   # active + passive addresses
             else:
